@@ -40,7 +40,11 @@ func registerIntrinsics(in *Interp) {
 	I := in.Intrinsics
 	nd := func(w int) IntrinsicFn {
 		return func(in *Interp, a []Value, _ ssa.CallInstruction) Value {
-			return in.B.Var(in.nondetName(str(a[0])), sym.BVSort(w))
+			n := in.nondetName(str(a[0]))
+			if v, ok := in.Concrete[strings.Trim(n, "|")]; ok {
+				return in.B.Const(w, v)
+			}
+			return in.B.Var(n, sym.BVSort(w))
 		}
 	}
 	I["vU8"] = nd(8)
